@@ -99,6 +99,10 @@ func c15Strings(maxTok int, first int) []string {
 func c15Run(flow c15Flow, maxTok, first int, jsonMode bool, scheme string, dl time.Time) engine.UnitResult {
 	res := engine.UnitResult{Exhaustive: true, Distinct: map[string]bool{}, Cover: map[string]int{}}
 	t0 := time.Now()
+	if bad := resolverSelfTest(); bad != "" {
+		res.Violations = append(res.Violations, engine.Violation{Rule: "harness/url-resolver-self-test", Detail: bad})
+		return res
+	}
 	cfg := world.Config{Modules: flow.modules, JSON: jsonMode, RootURL: scheme + "://site.test"}
 	s, err := world.NewStack(cfg)
 	if err != nil {
